@@ -991,6 +991,9 @@ func (c *c07ctx) ruleR7(fn *ssa.Function) {
 			case *ssa.UnOp:
 				if x.Op == token.MUL {
 					if o, f, _, ok := FieldOf(x); ok {
+						if fieldRemadeBefore(x, o, f) {
+							return // the field holds a buffer made afresh earlier in this very call
+						}
 						bad = o + "." + f
 						return
 					}
